@@ -61,6 +61,93 @@ def _cases(ts, limit=6):
     return cases_with_assignment(ts, limit)
 
 
+def gimbal_branch(cs, ent, letters, ex, repeated):
+    """the degenerate branch of to_euler on the reference rotation R(order; a, b*, 0) with the middle angle b* at its singular value
+    (cos b* = 0, sin b* = +-1 for three-axis orders; sin b* = 0, cos b* = +-1 for repeated-axis orders): the last returned angle is the
+    constant 0, the middle one is +-atan2 of operands proportional to (sin b*, cos b*), the first is +-atan2 of operands equal to a positive
+    constant times (sin a, cos a).  -> problem text or None"""
+    def is_zero(c):
+        while c.op == 'fneg':
+            c = c.args[0]
+        return tm.is_const(c) and tm.f_of(c) == 0.0
+    zero_i = 2 if is_zero(cs[2]) else (0 if is_zero(cs[0]) else None)
+    if zero_i is None:
+        return 'gimbal-lock branch: neither outer angle is the constant 0'
+    free_i = 2 - zero_i
+    for sing in (1, -1):
+        alg = nf.Algebra()
+        alg.budget = 400000
+        S = Spec(alg)
+        a_ = alg.nf(tm.atom('euler_angle_0'))
+        b_ = alg.nf(tm.atom('euler_angle_1'))
+        sa, ca = alg.sin_r(a_), alg.cos_r(a_)
+        sb, cb = alg.sin_r(b_), alg.cos_r(b_)
+        outer = {free_i: (sa, ca), zero_i: (S.c(0), S.c(1))}
+        Rs = [S.rot_axis(AXIS[letters[0]], *outer[0]), S.rot_axis(AXIS[letters[1]], sb, cb), S.rot_axis(AXIS[letters[2]], *outer[2])]
+        if ex:
+            Rs = Rs[::-1]
+        R3 = S.matmul(S.matmul(Rs[0], Rs[1], 3), Rs[2], 3)
+        vsb, vcb = list(sb[0].variables())[0], list(cb[0].variables())[0]
+        fix = {vsb: Poly.const(0), vcb: Poly.const(sing)} if repeated else {vsb: Poly.const(sing), vcb: Poly.const(0)}
+        mapping = {alg.var_for_atom(ent[k]): alg.substitute(R3[k][0], fix) for k in ent if k[0] < 3 and k[1] < 3}
+
+        def sub(x):
+            n, d = x
+            if d != ONE:
+                raise ValueError('rational operand')
+            m2 = dict(mapping)
+            for v in n.variables():
+                info = alg.var_info.get(v, ('?',))
+                if info[0] == 'fn' and info[1] == 'sqrt' and v not in m2:
+                    rad = info[2]
+                    P = alg.substitute(rad[0], mapping)
+                    if not P.is_const() or P.const_value() < 0:
+                        raise ValueError('square root of a non-constant at the singular angle')
+                    import math as _m
+                    k = P.const_value()
+                    rn, rd = _m.isqrt(k.numerator), _m.isqrt(k.denominator)
+                    if rn * rn != k.numerator or rd * rd != k.denominator:
+                        raise ValueError('irrational constant')
+                    from fractions import Fraction
+                    m2[v] = Poly.const(Fraction(rn, rd))
+            return alg.substitute(n, m2)
+        try:
+            for i in (free_i, 1):
+                c = cs[i]
+                sign = 1
+                while c.op == 'fneg':
+                    c = c.args[0]
+                    sign = -sign
+                if c.op != 'atan2':
+                    return 'gimbal-lock branch: component %d is not +-atan2(..)' % i
+                n_, d_ = sub(alg.nf(c.args[0])), sub(alg.nf(c.args[1]))
+                if i == free_i:
+                    th_s, th_c = (sa[0], ca[0]) if sign == 1 else (-sa[0], ca[0])
+                    cross = alg.reduce(alg.mul(n_, th_c) - alg.mul(d_, th_s))
+                    lam = alg.reduce(alg.mul(n_, th_s) + alg.mul(d_, th_c))
+                    if not cross.is_zero():
+                        return 'gimbal-lock branch (middle angle singular, %+d): the first angle is not recovered: atan2 operands are not proportional to (sin a, cos a)' % sing
+                    if not (lam.is_const() and lam.const_value() > 0):
+                        return 'gimbal-lock branch (middle angle singular, %+d): the first angle is recovered with factor %s, which is not a positive constant (off by pi)' % (sing, lam.show(alg.name, 4))
+                else:
+                    # (N, D) must be a non-negative multiple of (sin b*, cos b*) up to the sign wrapper
+                    if not (n_.is_const() and d_.is_const()):
+                        return 'gimbal-lock branch: the middle angle does not evaluate to a constant at the singular value'
+                    N, D = n_.const_value() * sign, d_.const_value()
+                    want = (0, sing) if repeated else (sing, 0)
+                    # atan2(sign*N, D) as an angle: compare directions; for repeated orders the returned angle is sigma*atan2(sy >= 0, .), so
+                    # only the cosine direction is fixed by the data (sy = 0)
+                    if repeated:
+                        if not (N == 0 and D * sing > 0):
+                            return 'gimbal-lock branch: the middle angle is not 0 / pi as the data require'
+                    else:
+                        if not (D == 0 and N * sing > 0):
+                            return 'gimbal-lock branch: the middle angle is not +-pi/2 as the data require'
+        except ValueError as e:
+            return 'gimbal-lock branch not analysable: %s' % e
+    return None
+
+
 def check_to_euler(ctx, cfg, F, H, M, done):
     """R-INV-EULER: to_euler(order) applied to the reference rotation R(order; a, b, c) (product of the three elementary rotations, as from_euler is shown
     to build) returns (a, b, c) on the regular branch: every returned component is +-atan2(N, D) with (N, D) = lambda (sin t, cos t) for its own
@@ -92,9 +179,16 @@ def check_to_euler(ctx, cfg, F, H, M, done):
             repeated = letters[0] == letters[2]
             bad = None
             n_reg = 0
+            n_gimbal = 0
             for asg, cs in cases:
                 if any(tm.is_const(c) for c in cs):
-                    continue      # gimbal-lock branch: one angle is fixed at 0 by convention
+                    # gimbal-lock branch: the third angle is fixed at 0 by convention; the other two must still rebuild the rotation
+                    why = gimbal_branch(cs, ent, letters, ex, repeated)
+                    if why:
+                        bad = why
+                        break
+                    n_gimbal += 1
+                    continue
                 alg = nf.Algebra()
                 alg.budget = 400000
                 S = Spec(alg)
@@ -176,6 +270,8 @@ def check_to_euler(ctx, cfg, F, H, M, done):
                     break
             if bad is None and n_reg == 0:
                 bad = 'no regular (non gimbal-lock) branch found'
+            if bad is None and n_gimbal == 0:
+                bad = 'no gimbal-lock branch found'
             done('R-INV-EULER', inst, bad, it)
 
 
@@ -272,6 +368,13 @@ def check_to_axis_angle(ctx, cfg, F, H, done):
             atans = []
             for c in cs:
                 _subterms(c, 'atan2', atans, set())
+            # the conventional (X, 0) answer may only be taken for |v| below a tiny threshold: otherwise small rotations are lost
+            for c_, v_ in asg.items():
+                ks = [x for x in c_.args if isinstance(x, tm.T) and tm.is_const(x)] if c_.op in ('flt', 'fle') else []
+                if len(ks) == 1 and not (0.0 < abs(tm.f_of(ks[0])) <= 1e-6):
+                    bad = 'the degenerate branch is taken below %g: rotations by up to twice that angle lose their axis and angle' % tm.f_of(ks[0])
+            if bad:
+                break
             if not atans:
                 continue          # degenerate branch (no angle is computed)
             if len(set(atans)) != 1:
@@ -395,6 +498,38 @@ def run(ctx):
                         if tname in ('Mat2', 'DMat2', 'Affine2', 'DAffine2'):
                             continue
                         bad = block_ok(S, alg, ent, R3, mi['cols'], mi['rows'], mname)
+                done('R-ALG', name, bad, it)
+            elif mname == 'from_scaled_axis' and tname in QUATS:
+                # from_scaled_axis(v) = rotation by |v| about v / |v|: (v/|v| sin(|v|/2), cos(|v|/2)); the identity for v = 0
+                r = H.run(it['key'])
+                bad = None
+                if r.abort or r.ret is None:
+                    ctx.unverifiable('R-ALG', cfg, name, r.abort or 'diverges')
+                    continue
+                lanes = value_lanes(F, r.ret, rty)
+                av = ArgView(F, r, 0, argtys[0])
+                cases = _cases(lanes) if lanes else None
+                if not cases or av.lanes is None:
+                    bad = 'result / operand lanes not found'
+                else:
+                    n_reg = 0
+                    for asg, ls in cases:
+                        if all(tm.is_const(x) for x in ls):
+                            if [tm.f_of(x) for x in ls] != [0.0, 0.0, 0.0, 1.0]:
+                                bad = 'the zero-length branch is not the identity quaternion'
+                            continue
+                        alg = nf.Algebra()
+                        S = Spec(alg)
+                        v = [alg.nf(x) for x in av.lanes]
+                        ln = alg.sqrt_r(S.dot(v, v))
+                        half = S.div(ln, S.c(2))
+                        exp = [S.mul(S.div(x, ln), alg.sin_r(half)) for x in v] + [alg.cos_r(half)]
+                        if not all(S.eq(alg.nf(l), e) for l, e in zip(ls, exp)):
+                            bad = 'from_scaled_axis is not (v/|v| sin(|v|/2), cos(|v|/2))'
+                            break
+                        n_reg += 1
+                    if not bad and n_reg == 0:
+                        bad = 'no regular branch found'
                 done('R-ALG', name, bad, it)
             elif mname == 'from_euler' and tname in (ROT3 | QUATS):
                 euler_types.add(tname)
